@@ -248,6 +248,19 @@ def p4(fb, chk, hr, tag):
         return
     uf = fb.fns[next(iter(flag_writers))]
     chk.fn_seen(uf)
+    # before any negotiation nothing is acknowledged: the constructor starts with the flag off
+    flag_name = flag_writers[uf.key][0]["field"]
+    for g in fb.find(name="new", self_adt="BackendReqHandler"):
+        gs = Sym(g, fb)
+        for b_ in g.blocks:
+            for st_ in b_["stmts"]:
+                if st_["k"] == "assign" and st_["rv"]["k"] == "agg" and st_["rv"].get("ak") == "adt" and \
+                        (st_["rv"].get("adt") or "").endswith("::BackendReqHandler"):
+                    v_ = dict(gs.rvalue(st_["rv"])[3]).get(flag_name)
+                    init = const_eval(fb, gs, v_) if v_ is not None else None
+                    chk.check(init == 0, "P4", tag + "flag:initial", "%s starts as false" % flag_name,
+                              "BackendReqHandler::new starts with %s = %s: requests carrying NEED_REPLY are acknowledged before REPLY_ACK "
+                              "was negotiated" % (flag_name, init), g.loc(st_.get("line")))
     summ = Summariser(fb)
     outs, sym = summ.paths(uf)
     want = {(roles.get("offered_virtio"), wire.VIRTIO_FEATURES["PROTOCOL_FEATURES"]),
@@ -319,7 +332,27 @@ def p4(fb, chk, hr, tag):
                   % (w["field"], codes), hr.loc(w["line"]))
 
 
+def p5_sends(fb, chk, tag):
+    """Every message the backend server writes is sent with a header obtained from the reply-header constructor (never the
+    request's own header, whose REPLY bit is clear and whose size is the request's)."""
+    for f in fb.find(self_adt="BackendReqHandler"):
+        if f.trait or f.name == "new":
+            continue
+        m = None
+        for bb, t, c in sites(f, name={"send_message", "send_message_with_payload", "send_header"}):
+            if not ((c.get("self_adt") or "").endswith("::Endpoint") or "Endpoint" in (c.get("self_ty") or "")):
+                continue
+            m = m or must_of(fb, f)
+            h = m.sym.arg_terms(bb)[1]
+            made = any(s_[0] == "call" and s_[1] == "new_reply_header" for s_ in subterms(h))
+            chk.check(made, "P5", "%ssend-header:%s@%d" % (tag, f.short, len([1 for i_ in chk.instances if i_[0] == "P5" and ("send-header:" + f.short) in i_[1]])),
+                      "header <- new_reply_header(..)",
+                      "%s writes a message whose header is `%s`, not one built by the reply-header constructor (REPLY flag, reply size)"
+                      % (f.short, show(h)[:70]), f.loc(t["line"]))
+
+
 def p5(fb, chk, tag):
+    p5_sends(fb, chk, tag)
     from . import headers
     fs = [f for f in fb.find(self_adt="BackendReqHandler") if not f.trait and "MsgHeader" in (f.rec.get("sig_out") or "")
           and f.name != "new"]
@@ -350,6 +383,11 @@ def p5(fb, chk, tag):
             has_sizeof = any(p[0] == "call" and p[1] == "size_of" for p in parts)
             has_payload = any(p[0] == "param" and p[2] == names[2] for p in parts)
             sz_ok = has_sizeof and has_payload
+            for p_ in parts:
+                if p_[0] == "call" and p_[1] == "size_of":
+                    ga = (h["sym"].info(p_).get("gargs") or [""])[-1]
+                    if ga in ("S", "Self"):
+                        sz_ok = False      # the server's own type parameter, not the reply body type
         if not sz_ok:
             probs.add("size is %s (must be size_of::<T>() + payload length)" % (show(size)[:60] if size is not None else None))
     chk.check(not probs, "P5", tag + "reply-header", "code <- request's, flags = version|REPLY, size = size_of::<T>() + payload (%d success paths)" % len(hs),
